@@ -30,6 +30,7 @@ pub enum P {
     L,
     D,
     R,
+    O,
 }
 
 #[derive(Clone, Copy, Debug, PartialEq, Eq, Hash, PartialOrd, Ord)]
@@ -78,12 +79,15 @@ fn prog_insns(p: P) -> Vec<I> {
         // reads the first 8 bytes of the fixed VM's internal buffer: zero in a freshly (re)loaded VM
         // unless the configured offsets put a packet pointer there
         P::R => vec![isa::ldxdw(0, 1, 0), isa::EXIT],
+        // a local call out of the program, in dead code: only a permissive verifier loads it; the
+        // interpreter never reaches the call
+        P::O => vec![isa::mov64i(0, 7), isa::EXIT, isa::call_local(100), isa::EXIT],
     }
 }
 
 fn prog_bytes(p: P) -> &'static [u8] {
     static CELL: OnceLock<Vec<Vec<u8>>> = OnceLock::new();
-    let all = CELL.get_or_init(|| [P::A, P::B, P::H, P::X, P::M, P::L, P::D, P::R].iter().map(|p| isa::enc(&prog_insns(*p))).collect());
+    let all = CELL.get_or_init(|| [P::A, P::B, P::H, P::X, P::M, P::L, P::D, P::R, P::O].iter().map(|p| isa::enc(&prog_insns(*p))).collect());
     &all[p as usize]
 }
 
@@ -122,7 +126,7 @@ fn calc(_prog: &[u8], _pc: usize, _data: &mut dyn std::any::Any) -> u16 {
 
 fn accepts(v: V, p: P) -> bool {
     match v {
-        V::Default | V::DefaultLike => p != P::X,
+        V::Default | V::DefaultLike => p != P::X && p != P::O,
         V::AcceptAll => true,
         V::RejectAll => false,
         V::OnlyB => p == P::B,
@@ -164,6 +168,9 @@ pub enum Exp {
     Val(Vec<u64>),
     /// not specified (e.g. a configuration the property does not speak about): not compared
     Any,
+    /// not specified at all, a panic included: compiling a program that only a permissive
+    /// verifier let in (no property speaks about it)
+    Unspecified,
 }
 
 #[derive(Clone, Debug, PartialEq, Eq)]
@@ -184,6 +191,10 @@ fn value(p: P, helper: Option<F>, kind: K, offs: u8, calc: bool, pkt: &[u8], eng
             None => Exp::Err,
         },
         P::X => Exp::Err,
+        P::O => match eng {
+            Eng::Interp => Exp::Val(vec![7]),
+            _ => Exp::Any,
+        },
         P::M => {
             if kind == K::NoData || pkt.is_empty() {
                 Exp::Err
@@ -273,6 +284,11 @@ pub fn step(s: &St, a: Act) -> (St, Exp) {
         Act::JitCompile => match s.prog {
             None => Exp::Err,
             Some(P::X) => Exp::Err,
+            Some(P::O) => {
+                // whatever this did, what execute_program_jit then does is unspecified too
+                n.jit = Some((P::O, s.helper, s.offs));
+                Exp::Unspecified
+            }
             Some(p) if uses_helper(p) && s.helper.is_none() => Exp::Err,
             Some(p) => {
                 n.jit = Some((p, s.helper, s.offs));
@@ -281,7 +297,7 @@ pub fn step(s: &St, a: Act) -> (St, Exp) {
         },
         Act::ClCompile => match s.prog {
             None => Exp::Err,
-            Some(P::X) | Some(P::L) => Exp::Err,
+            Some(P::X) | Some(P::L) | Some(P::O) => Exp::Err,
             Some(p) if uses_helper(p) && s.helper.is_none() => Exp::Err,
             Some(p) => {
                 n.cl = Some((p, s.helper, s.offs));
@@ -402,6 +418,7 @@ fn show(o: &Obs) -> String {
 
 fn matches(exp: &Exp, obs: &Obs) -> Option<&'static str> {
     match (exp, obs) {
+        (Exp::Unspecified, _) => None,
         (_, Obs::Panic(_)) => Some("panic"),
         (Exp::Any, _) => None,
         (Exp::Ok, Obs::Ok) => None,
@@ -638,7 +655,7 @@ fn cfg_for(tier: Tier, part: usize) -> Cfg {
     match tier {
         Tier::Quick => Cfg {
             kinds: if part == 0 { vec![K::Raw, K::Fixed, K::Mbuff, K::NoData] } else { vec![K::Fixed, K::Mbuff] },
-            progs: if part == 0 { vec![P::A, P::B, P::H, P::X] } else { vec![P::A, P::D, P::X, P::M, P::R] },
+            progs: if part == 0 { vec![P::A, P::B, P::H, P::X] } else { vec![P::A, P::D, P::O, P::M, P::R] },
             verifiers: vec![V::DefaultLike, V::AcceptAll, V::RejectAll, V::OnlyB],
             helpers: if part == 0 { vec![F::F, F::G] } else { vec![F::F] },
             calc: false,
@@ -647,7 +664,7 @@ fn cfg_for(tier: Tier, part: usize) -> Cfg {
         },
         Tier::Thorough => Cfg {
             kinds: vec![K::Raw, K::Fixed, K::Mbuff, K::NoData],
-            progs: if part == 0 { vec![P::A, P::B, P::H, P::X, P::M] } else { vec![P::A, P::L, P::D, P::X, P::R] },
+            progs: if part == 0 { vec![P::A, P::B, P::H, P::X, P::M] } else { vec![P::A, P::L, P::D, P::X, P::R, P::O] },
             verifiers: vec![V::DefaultLike, V::AcceptAll, V::RejectAll, V::OnlyB],
             helpers: vec![F::F, F::G],
             calc: true,
@@ -670,6 +687,7 @@ fn parse_act(s: &str) -> Act {
         "M" => P::M,
         "L" => P::L,
         "R" => P::R,
+        "O" => P::O,
         _ => P::D,
     };
     let k = |x: &str| match x {
